@@ -127,6 +127,9 @@ func (s *Sim) LogHash() uint64 { return s.log.Sum() }
 
 func (s *Sim) Aborting() bool { return s.aborting }
 
+// InTask reports whether the caller runs inside a scheduled task.
+func (s *Sim) InTask() bool { return s.cur != nil }
+
 // Go registers a task. It may be called before Run or from a running task.
 func (s *Sim) Go(name string, f func()) *Task {
 	t := &Task{ID: len(s.tasks), Name: name, wake: make(chan struct{}), fn: f, point: "start"}
